@@ -43,8 +43,13 @@ def sh(cmd, timeout=3600, cwd=VERIF):
     return p.returncode, p.stdout.decode(errors='replace')
 
 
+TIES = {'C20': ['ThreadProg'], 'C17': ['Preds'], 'C02': ['Consts'], 'C03': ['Consts'], 'C12': ['Consts'], 'C18': ['Consts']}
+
+
 def build():
-    """Returns (ok, log). Rebuilds generated fragments, Coq development and driver."""
+    """Returns (ok, log, what). Rebuilds generated fragments, the Coq development and the driver.
+    The Coq build continues past a broken file (make -k): whether a breakage concerns this
+    property is decided afterwards by compiling its own Props file and tie files."""
     logs = []
     try:
         import translators
@@ -52,20 +57,24 @@ def build():
         logs.append('generated fragments: %s' % (', '.join(changed) if changed else 'unchanged'))
     except Exception as e:   # a translator that meets an unsupported construct is a broken tie
         return False, 'translator failed: %s\n%s' % (e, traceback.format_exc()), 'translator'
-    rc, out = sh('make -C %s setup JOBS=16 2>&1 | tail -40' % VERIF)
-    rc2 = 0 if os.path.exists(core.DRIVER) else 1
-    # make's exit status is hidden by the pipe: look for an error marker
-    bad = re.search(r'\*\*\*|Error', out)
-    if bad or rc2:
-        what = 'proof'
-        m = re.search(r'File "\./([A-Za-z]+)/', out)
-        if m and m.group(1) in ('Tie', 'gen'):
-            what = 'tie'
-        elif m and m.group(1) == 'Model':
-            what = 'model'
-        return False, out, what
-    logs.append(out[-400:])
+    rc, out = sh('make -C %s setup JOBS=16 2>&1 | tail -60' % VERIF)
+    logs.append(out[-1500:])
+    if not os.path.exists(core.DRIVER):
+        return False, out, 'model'
     return True, '\n'.join(logs), None
+
+
+def check_ties(prop):
+    """Compile the tie files this property depends on. Returns a list of broken tie descriptions."""
+    broken = []
+    for t in TIES.get(prop, []):
+        cmd = ('cd %s/coq && timeout 600 coqc -Q Model Model -Q Proofs Proofs -Q Props Props -Q gen Gen -Q Tie Tie '
+               '-o %s/props/tie/%s.vo Tie/%s.v' % (VERIF, core.BUILD, t, t))
+        os.makedirs(os.path.join(core.BUILD, 'props', 'tie'), exist_ok=True)
+        rc, out = sh(cmd)
+        if rc != 0:
+            broken.append('Tie/%s.v (generated fragment gen/%s.v no longer matches what the proofs use): %s' % (t, t, out[-600:]))
+    return broken
 
 
 def forbidden_words():
@@ -181,6 +190,8 @@ def main(argv):
 
     proofs = {'obligations': 0, 'discharged': 0, 'theorems': [], 'open': [], 'log': '', 'ok': False, 'checker_cmd': ''}
     if ok:
+        for b in check_ties(prop):
+            broken.append(b)
         proofs = check_props_file(prop, tier)
         if not proofs['ok']:
             broken.append('Props.%s: %s %s' % (prop, '; '.join(proofs['open'][:6]), proofs['log'][-800:]))
